@@ -13,8 +13,10 @@ trait Identity: Clone + Eq + Sized {
 
     spec fn renew_spec(&self) -> Option<Self>;
 
+    // A-renew: a renewed identity keeps the address (it exists to win the conflict for that address)
     fn renew(&self) -> (r: Option<Self>)
-        ensures r == self.renew_spec();
+        ensures r == self.renew_spec(),
+                r.is_some() ==> r.unwrap().addr_of() == self.addr_of();
 
     fn addr(&self) -> (r: Self::Addr)
         ensures r == self.addr_of();
